@@ -11,10 +11,16 @@
      C13_Model.v; JSON Patch is github.com/evanphx/json-patch as it is ("replace" of a
      missing member of an existing object succeeds).
 
+   * Kinds served in several API groups/versions and sessions of several executions
+     (C13_GModel / C13_GSpec, theorems named C13_g_...): resolution of (apiVersion, kind) is
+     kube-client's GroupVersionResource as the fake cluster answers it (without an
+     apiVersion: first resource list in discovery order that holds the kind); kinds are
+     compared exactly (plural / short names and letter case are not modelled).
+
    The model follows the tree AFTER the repair of F12 (YAML integers reached
    Unstructured.DeepCopy as Go int: panic); there is no known-finding trigger. *)
 From Coq Require Import String.
-From Verif Require Import Common Json C13_Model C13_Spec C13_Proofs.
+From Verif Require Import Common Json C13_Model C13_Spec C13_Proofs C13_GModel C13_GSpec C13_GProofs.
 
 (* the whole property on the model: for every initial cluster, every stream of
    documents and every projection of objects, one hook run satisfies the predicate *)
@@ -98,6 +104,102 @@ Theorem C13_subresource_same_effect : forall c k body sub sub' im,
 Proof. exact subresource_same_effect. Qed.
 Print Assumptions C13_subresource_same_effect.
 
+(* ---------- kinds served in several groups; several executions ---------- *)
+
+(* the whole property there: for every discovery (which groupVersions serve which kinds,
+   in which order), every initial cluster, every session of patch files and every
+   projection, every execution of the session satisfies the predicate, starting from
+   the cluster the documented effects of the executions before it leave *)
+Theorem C13_g_session_meets_spec : forall proj d c files,
+  P_gsession proj d c files (ghandle_runs d c files) = true.
+Proof. exact gsession_meets_spec. Qed.
+Print Assumptions C13_g_session_meets_spec.
+
+(* the same seen from outside the operator (failed?, cluster, API calls per execution) *)
+Theorem C13_g_hook_session_meets_spec : forall proj d c files,
+  P_ghook_session proj d c files (map hook_view (ghandle_runs d c files)) = true.
+Proof. exact ghook_session_meets_spec. Qed.
+Print Assumptions C13_g_hook_session_meets_spec.
+
+(* the code's resolution of (apiVersion, kind) is the groupVersion the document names:
+   its own apiVersion if the cluster serves the kind there, without apiVersion the
+   preferred one; and the code's execution of a stream has the documented effects *)
+Theorem C13_g_refines_documented_effects : forall d c os,
+  (forall av kind, resolve d av kind = named_gv d av kind) /\
+  match gexec d c os, geffects d c os with
+  | (c1, _, es), (d1, fs) => cl_equiv c1 d1 /\ es = fs
+  end.
+Proof. intros d c os. split; [intros; apply resolve_named | apply gexec_refines, equiv_refl]. Qed.
+Print Assumptions C13_g_refines_documented_effects.
+
+(* exactly the named object: an operation changes no other object, and every API call it
+   makes is a call for the object it names (no call at all when the kind is not served) *)
+Theorem C13_g_only_named_object : forall d c o,
+  (forall k', named d o <> Some k' -> cl_get k' (cluster_of (gexec_op d c o)) = cl_get k' c) /\
+  Forall (fun cl => named d o = Some (call_key cl)) (calls_of (gexec_op d c o)).
+Proof. exact gexec_op_only_named. Qed.
+Print Assumptions C13_g_only_named_object.
+
+(* an object that no document of a stream names is left as it was by the whole stream *)
+Theorem C13_g_unnamed_untouched : forall d os c k',
+  (forall o, In o os -> named d o <> Some k') ->
+  cl_get k' (fst (fst (gexec d c os))) = cl_get k' c.
+Proof. exact gexec_untouched. Qed.
+Print Assumptions C13_g_unnamed_untouched.
+
+(* in particular the same-named object of another group: a delete / patch document that
+   names group g leaves kind/namespace/name of every other group g' as it was *)
+Theorem C13_g_other_group_untouched : forall d c o a g g',
+  (exists m, o = GDelete m a) \/ (exists body sub im, o = GPatch a body sub im) ->
+  named_gv d (a_api a) (a_kind a) = Some g -> g' <> g -> ~ In bar g -> ~ In bar g' ->
+  cl_get (key_at g' (a_kind a) (a_ns a) (a_name a)) (cluster_of (gexec_op d c o)) =
+  cl_get (key_at g' (a_kind a) (a_ns a) (a_name a)) c.
+Proof. exact other_group_untouched. Qed.
+Print Assumptions C13_g_other_group_untouched.
+
+(* object keys are faithful: different (groupVersion, kind, namespace, name) = different key *)
+Theorem C13_g_keys_injective : forall g kind ns name g' kind' ns' name',
+  ~ In bar g -> ~ In bar g' -> ~ In slash kind -> ~ In slash kind' -> ~ In slash ns -> ~ In slash ns' ->
+  key_at g kind ns name = key_at g' kind' ns' name' ->
+  g = g' /\ kind = kind' /\ ns = ns' /\ name = name'.
+Proof. exact key_at_inj. Qed.
+Print Assumptions C13_g_keys_injective.
+
+(* a document without apiVersion does what the same document with the preferred
+   apiVersion written out does (discovery with one resource list per groupVersion) *)
+Theorem C13_g_omitted_is_preferred : forall d c kind ns name g,
+  NoDup (map fst d) -> g <> [] -> preferred d kind = Some g ->
+  (forall m, gexec_op d c (GDelete m (mkAddr [] kind ns name)) = gexec_op d c (GDelete m (mkAddr g kind ns name))) /\
+  (forall body sub im, gexec_op d c (GPatch (mkAddr [] kind ns name) body sub im)
+                       = gexec_op d c (GPatch (mkAddr g kind ns name) body sub im)).
+Proof. exact omitted_is_preferred_op. Qed.
+Print Assumptions C13_g_omitted_is_preferred.
+
+(* nothing is carried from one execution to the next but the cluster: a session a ++ b
+   is the session a followed by the session b started from the cluster a left, and two
+   executions with the valid files a and b make the API calls, report the errors and
+   leave the cluster of one execution with the file a ++ b *)
+Theorem C13_g_executions_compose : forall d c a b,
+  ghandle_runs d c (a ++ b) = ghandle_runs d c a ++ ghandle_runs d (final_cluster d c a) b.
+Proof. intros d c a b. apply ghandle_runs_app. Qed.
+Print Assumptions C13_g_executions_compose.
+
+Theorem C13_g_split_irrelevant : forall d c a b,
+  gall_valid a = true -> gall_valid b = true ->
+  let r1 := ghandle_run d c a in
+  let r2 := ghandle_run d (r_cluster r1) b in
+  let r := ghandle_run d c (a ++ b) in
+  r_parse_ok r = true /\ r_cluster r = r_cluster r2 /\
+  r_calls r = r_calls r1 ++ r_calls r2 /\ r_errors r = r_errors r1 ++ r_errors r2.
+Proof. exact g_split_irrelevant. Qed.
+Print Assumptions C13_g_split_irrelevant.
+
+(* an invalid document in one execution: that execution changes nothing and fails *)
+Theorem C13_g_all_or_nothing : forall d c ds,
+  In GDBad ds -> ghandle_run d c ds = mkOutcome false c [] [] /\ failed (ghandle_run d c ds) = true.
+Proof. intros d c ds H. rewrite (g_all_or_nothing d c ds H). split; reflexivity. Qed.
+Print Assumptions C13_g_all_or_nothing.
+
 (* ---------- non-vacuity and sanity (computed examples, not theorems) ---------- *)
 
 Definition s (x : string) : json := JStr (B x).
@@ -138,3 +240,47 @@ Example C13_merge_patch_rfc7386_vectors :
   merge_patch (o [(B "e", JNull)]) (o [(a, JNum 1)]) = o [(a, JNum 1); (B "e", JNull)] /\
   merge_patch (o []) (o [(a, o [(B "bb", o [(B "ccc", JNull)])])]) = o [(a, o [(B "bb", o [])])].
 Proof. repeat split; vm_compute; reflexivity. Qed.
+
+(* ---------- non-vacuity for the C13_g_... theorems ---------- *)
+
+Definition widget (api name owner : string) : json :=
+  JObj [(B "apiVersion", s api); (B "data", JObj [(B "owner", s owner)]); (B "kind", s "Widget");
+        (B "metadata", JObj [(B "name", s name); (B "namespace", s "default")])].
+Definition d_ex : discovery :=
+  [(B "v1", [B "ConfigMap"; B "Secret"]); (B "example.io/v1", [B "Widget"]); (B "legacy.example.io/v1", [B "Widget"; B "Gadget"])].
+Definition kw (api : string) : key := key_at (B api) (B "Widget") (B "default") (B "w").
+Definition cw_ex : cluster :=
+  [(kw "example.io/v1", widget "example.io/v1" "w" "nobody"); (kw "legacy.example.io/v1", widget "legacy.example.io/v1" "w" "nobody")].
+Definition aw (api : string) : addr := mkAddr (B api) (B "Widget") (B "default") (B "w").
+Definition set_owner (v : string) : patch_body := PMerge (JObj [(B "data", JObj [(B "owner", s v)])]).
+
+(* Widget is served in two groups, example.io first (preferred), Gadget in one; the
+   hypotheses of other_group_untouched / omitted_is_preferred / keys_injective /
+   split_irrelevant / all_or_nothing are met; and a session of two executions - a patch
+   naming the legacy group, then a patch without apiVersion - patches the legacy Widget,
+   then the preferred one, each once *)
+Example C13_g_hyp_met :
+  NoDup (map fst d_ex) /\
+  preferred d_ex (B "Widget") = Some (B "example.io/v1") /\ B "example.io/v1" <> [] /\
+  named_gv d_ex (B "legacy.example.io/v1") (B "Widget") = Some (B "legacy.example.io/v1") /\
+  named_gv d_ex (B "example.io/v1") (B "Gadget") = None /\
+  named_gv d_ex (B "nope.io/v1") (B "Widget") = None /\
+  B "example.io/v1" <> B "legacy.example.io/v1" /\
+  ~ In bar (B "example.io/v1") /\ ~ In bar (B "legacy.example.io/v1") /\
+  ~ In slash (B "Widget") /\ ~ In slash (B "default") /\
+  gall_valid [GDOp (GDelete DBackground (aw ""))] = true /\
+  In GDBad [GDOp (GDelete DBackground (aw "")); GDBad] /\
+  map r_cluster (ghandle_runs d_ex cw_ex
+      [[GDOp (GPatch (aw "legacy.example.io/v1") (set_owner "first") [] false)];
+       [GDOp (GPatch (aw "") (set_owner "second") [] false)]])
+  = [[(kw "example.io/v1", widget "example.io/v1" "w" "nobody"); (kw "legacy.example.io/v1", widget "legacy.example.io/v1" "w" "first")];
+     [(kw "example.io/v1", widget "example.io/v1" "w" "second"); (kw "legacy.example.io/v1", widget "legacy.example.io/v1" "w" "first")]] /\
+  map r_errors (ghandle_runs d_ex cw_ex
+      [[GDOp (GDelete DBackground (mkAddr (B "example.io/v1") (B "Gadget") (B "default") (B "w")));
+        GDOp (GDelete DBackground (aw "legacy.example.io/v1"))]])
+  = [[ENotServed]].
+Proof.
+  split; [repeat constructor; cbn; intuition discriminate|].
+  repeat split; try (vm_compute; reflexivity); try discriminate;
+    try (vm_compute; intuition discriminate).
+Qed.
